@@ -894,7 +894,17 @@ func (e *connectWireError) MarshalJSON() ([]byte, error) {
 func (e *connectWireError) UnmarshalJSON(data []byte) error {
 	var wire errorv1.Error
 	if err := (&protoJSONCodec{}).Unmarshal(data, &wire); err != nil {
-		return err
+		// A detail can't be read unless its type is linked into this binary. That
+		// must not cost the error its code and message: read it again without
+		// the details.
+		stripped, ok := connectErrorWithoutDetails(data)
+		if !ok {
+			return err
+		}
+		wire.Reset()
+		if (&protoJSONCodec{}).Unmarshal(stripped, &wire) != nil {
+			return err
+		}
 	}
 	if wire.Code == "" {
 		return nil
@@ -914,6 +924,21 @@ func (e *connectWireError) UnmarshalJSON(data []byte) error {
 		}
 	}
 	return nil
+}
+
+// connectErrorWithoutDetails removes the details from the JSON form of an
+// error, if it has any.
+func connectErrorWithoutDetails(data []byte) ([]byte, bool) {
+	var fields map[string]json.RawMessage
+	if err := json.Unmarshal(data, &fields); err != nil {
+		return nil, false
+	}
+	if _, ok := fields["details"]; !ok {
+		return nil, false
+	}
+	delete(fields, "details")
+	stripped, err := json.Marshal(fields)
+	return stripped, err == nil
 }
 
 type connectEndStreamMessage struct {
